@@ -2,13 +2,17 @@ package main
 
 // kind 0302: the real fsutil.Receive inside the jail, fed by a scripted (hostile) sender.
 //
-// input : (setup-ops dest packets merge)
+// input : (setup-ops dest packets merge) | (setup-ops dest packets merge opts)
 //   setup-ops  ops of kind 0301 (c03_kernel.go) that build the whole jail: the destination with
 //              whatever it already contains, and the sentinel tree outside it
 //   dest       the string handed to Receive (absolute, relative, through a symlink, ...)
 //   packets    (0 stat) STAT | (0) the empty STAT | (1 id data) DATA | (2) FIN | (3 msg) ERR |
 //              (4 id) REQ | (5 type) a packet of an unknown type
 //   merge      ReceiveOpt.Merge
+//   opts       (metaonly filter): further fields of ReceiveOpt, each () = nil or (default (path ...)):
+//              the callback answers [default] for every path except the listed ones, where it
+//              answers the opposite.  metaonly = ReceiveOpt.MetadataOnly (true: transfer the entry
+//              in full), filter = ReceiveOpt.Filter (false: the disk writer skips the change).
 // output: (class t0 destreal before after)
 //   class      0 Receive returned nil | 1 it returned an error | 2 it did not return although the
 //              sender had closed the stream (it is then cancelled) | 3 the receiver process died
@@ -128,12 +132,14 @@ var (
 	c03MarkTramp = []byte("main.c03RecvTrampoline")
 )
 
-// c03Quiescent: no goroutine that runs (or is about to run) receiver code can make a step.
-func c03Quiescent(buf []byte) bool {
+// c03Quiescent: 1 = no goroutine that runs (or is about to run) receiver code can make a step;
+// 2 = the only ones that are not parked sit in a system call; 0 = something is running.
+func c03Quiescent(buf []byte) int {
 	n := runtime.Stack(buf, true)
 	if n == len(buf) {
-		return false // truncated dump: cannot tell
+		return 0 // truncated dump: cannot tell
 	}
+	res := 1
 	for _, blk := range bytes.Split(buf[:n], []byte("\n\n")) {
 		if !bytes.Contains(blk, c03MarkPkg) && !bytes.Contains(blk, c03MarkGroup) && !bytes.Contains(blk, c03MarkTramp) {
 			continue
@@ -141,7 +147,7 @@ func c03Quiescent(buf []byte) bool {
 		i := bytes.IndexByte(blk, '[')
 		j := bytes.IndexByte(blk, ']')
 		if i < 0 || j < i {
-			return false
+			return 0
 		}
 		state := string(blk[i+1 : j])
 		if k := strings.IndexByte(state, ','); k >= 0 {
@@ -149,20 +155,36 @@ func c03Quiescent(buf []byte) bool {
 		}
 		switch state {
 		case "select", "chan receive", "chan send", "semacquire", "sync.WaitGroup.Wait", "sync.Cond.Wait":
+		case "syscall":
+			res = 2
 		default:
-			return false
+			return 0
 		}
 	}
-	return true
+	return res
 }
 
 // waits until the receiver is quiescent or Receive has returned (then also until the
-// goroutines it left behind are gone); false = gave up after the time limit
+// goroutines it left behind are gone); false = gave up: after the time limit, or earlier when
+// for c03BlockedFor without interruption every poll found a receiver goroutine inside a
+// system call and nothing else running (a call that blocks, e.g. the open of a FIFO)
+const c03BlockedFor = 1500 * time.Millisecond
+
 func c03Settle(buf []byte, limit time.Duration) bool {
 	deadline := time.Now().Add(limit)
+	var blockedSince time.Time
 	for i := 0; ; i++ {
-		if c03Quiescent(buf) {
+		switch c03Quiescent(buf) {
+		case 1:
 			return true
+		case 2:
+			if blockedSince.IsZero() {
+				blockedSince = time.Now()
+			} else if time.Since(blockedSince) > c03BlockedFor {
+				return false
+			}
+		default:
+			blockedSince = time.Time{}
 		}
 		if time.Now().After(deadline) {
 			return false
@@ -175,9 +197,46 @@ func c03Settle(buf []byte, limit time.Duration) bool {
 	}
 }
 
-func c03RecvTrampoline(ctx context.Context, st fsutil.Stream, dest string, merge bool, started chan<- struct{}, done chan<- error) {
+// c03HoldFifos opens every FIFO of the jail read-write and keeps it open during the run: an
+// open(O_WRONLY) of such a FIFO by the code under test then returns at once instead of blocking
+// for ever (the receiver has no business opening one; a variant that does shows up as a
+// difference in the snapshot, not as a hung process).
+func c03HoldFifos(snap Sx) (fds []int) {
+	for _, e := range snap.L {
+		if e.L[3].U64() == unix.S_IFIFO {
+			if fd, err := unix.Open("/"+e.L[0].Str(), unix.O_RDWR|unix.O_NONBLOCK|unix.O_CLOEXEC, 0); err == nil {
+				fds = append(fds, fd)
+			}
+		}
+	}
+	return fds
+}
+
+func c03RecvTrampoline(ctx context.Context, st fsutil.Stream, dest string, opt fsutil.ReceiveOpt, started chan<- struct{}, done chan<- error) {
 	close(started) // from here on this goroutine shows the marker frame in every stack dump
-	done <- fsutil.Receive(ctx, st, dest, fsutil.ReceiveOpt{Merge: merge})
+	done <- fsutil.Receive(ctx, st, dest, opt)
+}
+
+// a callback of ReceiveOpt given as (default (path ...)); () = nil
+func c03PathPred(x Sx) fsutil.FilterFunc {
+	if len(x.L) != 2 {
+		return nil
+	}
+	def := x.L[0].IsTrue()
+	set := map[string]bool{}
+	for _, p := range x.L[1].L {
+		set[p.Str()] = true
+	}
+	return func(p string, _ *types.Stat) bool { return def != set[p] }
+}
+
+func c03RecvOpt(in Sx) fsutil.ReceiveOpt {
+	opt := fsutil.ReceiveOpt{Merge: in.L[3].IsTrue()}
+	if len(in.L) > 4 && len(in.L[4].L) == 2 {
+		opt.MetadataOnly = c03PathPred(in.L[4].L[0])
+		opt.Filter = c03PathPred(in.L[4].L[1])
+	}
+	return opt
 }
 
 func c03Packet(x Sx) *types.Packet {
@@ -233,6 +292,9 @@ func child0302(in Sx) Sx {
 	// kept outside the jail: a receiver that dies in a panic takes this process with it, and
 	// the next worker finishes the case from here (c03Post0302)
 	c03WriteBase(c03BeforeFile, []byte(head.String()))
+	for _, fd := range c03HoldFifos(before) {
+		defer unix.Close(fd)
+	}
 
 	ctx, cancel := context.WithCancel(context.Background())
 	defer cancel()
@@ -247,7 +309,7 @@ func child0302(in Sx) Sx {
 		}
 	}()
 	started := make(chan struct{})
-	go c03RecvTrampoline(ctx, sp.B, dest, in.L[3].IsTrue(), started, done)
+	go c03RecvTrampoline(ctx, sp.B, dest, c03RecvOpt(in), started, done)
 	<-started
 
 	buf := make([]byte, 1<<20)
@@ -301,12 +363,14 @@ func child0302(in Sx) Sx {
 	if !returned {
 		select {
 		case rerr = <-done:
-		case <-time.After(5 * time.Second):
+		case <-time.After(2 * time.Second):
 			class = 11
 		}
 	}
 	sp.TearDown(nil)
-	c03Settle(buf, 2*time.Second)
+	if !c03Settle(buf, 2*time.Second) {
+		c03Tainted = true
+	}
 	after := c03SnapshotRaw("/")
 	return L(NI(class), head.L[0], head.L[1], before, after)
 }
